@@ -662,6 +662,10 @@ func (s *Server) Invoke(responseWriter http.ResponseWriter, invoke *interop.Invo
 		if err != nil {
 			log.Infof("ReserveFailed: %s", err)
 		}
+		if reserveResp == nil {
+			releaseErrChan <- err
+			return
+		}
 
 		invoke.DeadlineNs = fmt.Sprintf("%d", metering.Monotime()+reserveResp.Token.FunctionTimeout.Nanoseconds())
 		go func() {
